@@ -7,7 +7,10 @@
 (* cases they reject; a rejected case that satisfies no listed signature   *)
 (* is a VIOLATION.  Signatures are narrow on purpose.                      *)
 (***************************************************************************)
-EXTENDS Match
+EXTENDS Match, Actions
 
 MatchSigs(c) == {}
+
+StepSigs(c) == {}
+WalkSigs(c) == {}
 =============================================================================
